@@ -57,11 +57,17 @@ class Fragment:
                 return self.name, self.end, othr.name, othr.start
             elif othr.strand == -1:
                 #      fwd >>>                          <<< rev
-                return self.name, self.end, othr.end, othr.name
+                # Reversing the scaffold swaps the two Fragments, so put
+                # their ends in a fixed order
+                a, b = sorted(((self.name, self.end), (othr.name, othr.end)))
+                return a[0], a[1], b[1], b[0]
         elif self.strand == -1:
             if othr.strand == 1:
                 #                    <<< rev  fwd >>>
-                return self.start, self.name, othr.name, othr.start
+                a, b = sorted(
+                    ((self.name, self.start), (othr.name, othr.start)), reverse=True
+                )
+                return a[1], a[0], b[0], b[1]
             elif othr.strand == -1:
                 # For the rev-rev case, junction should match fwd-fwd
                 #      rev >>>              rev >>>
